@@ -26,7 +26,7 @@ Inductive smode :=
 Record srccfg := { sc_eph : Z; sc_mode : smode; sc_uid : Z }.
 
 (* what a stored message remembers: payload + ghost provenance (id it was published under) *)
-Record stored := { st_pay : Z; st_mid : Z; st_src : nat }.   (* st_mid, st_src are ghosts *)
+Record stored := { st_pay : Z; st_mid : Z; st_src : nat; st_topic : str }.   (* st_mid, st_src, st_topic are ghosts *)
 
 Record src := {
   cfg : srccfg;
@@ -288,7 +288,7 @@ Definition on_msg (v : variant) (st : rstate) (f : frame) (i : nat) (m : wmsg)
            f1, [], false)
         else (with_srcs (set_src (srcs st) i (fun _ => s1)) st, f1, [], false)
       else
-        let sm := {| st_pay := w_pay m; st_mid := mid; st_src := i |} in
+        let sm := {| st_pay := w_pay m; st_mid := mid; st_src := i; st_topic := topic |} in
         let fin (st' : rstate) (f' : frame) (brk : bool) := fin_msg st' f' brk i eph (w_topics m) in
         if eph then
           match process_msg v s1 mid sm topic (w_topics m) (min_recv s1) with
